@@ -790,7 +790,8 @@ func checkWholeTextArm(c *core.Ctx, sp *ssa.Function, ta *ssa.TypeAssert, printe
 				ec, isCall := v.(*ssa.Call)
 				isErrText := false
 				if isCall {
-					if ec.Call.IsInvoke() && ec.Call.Method.Name() == "Error" && ec.Call.Value == recv {
+					// (in a merged arm - case A, B: - the switch variable is the error itself)
+					if ec.Call.IsInvoke() && ec.Call.Method.Name() == "Error" && (ec.Call.Value == recv || (len(sp.Params) > 0 && ec.Call.Value == ssa.Value(sp.Params[0]))) {
 						isErrText = true
 					}
 					if f := sx.Callee(ec); f != nil && f.Name() == "Error" && len(ec.Call.Args) == 1 && ec.Call.Args[0] == recv {
